@@ -35,6 +35,13 @@ def _col(v, n=None):
     return a
 
 
+def _engine_array(v):
+    """arrays handed to the analysed code are of the engine's array type (so that index arrays built by the library can index them)"""
+    if isinstance(v, numpy.ndarray) and not isinstance(v, SymArray) and symnp.PROXY is not None and symnp.PROXY.enabled:
+        return symnp.box(v)
+    return v
+
+
 def _is_missing(x):
     if x is None:
         return True
@@ -60,8 +67,16 @@ class Index:
         return x in self._n
 
     def __getitem__(self, i):
+        if isinstance(i, numpy.ndarray):
+            ii = symnp.unbox(i) if isinstance(i, SymArray) else i
+            if ii.dtype == bool:
+                return Index([n for n, b in zip(self._n, ii) if b])
+            return Index([self._n[int(k)] for k in ii])
         r = self._n[i]
         return Index(r) if isinstance(r, list) else r
+
+    def astype(self, dt):
+        return Index([dt(n) for n in self._n]) if dt is str else self
 
     def tolist(self):
         return list(self._n)
@@ -92,7 +107,7 @@ class Series:
             v = v.astype(dtype)
         elif copy:
             v = v.copy()
-        return v
+        return _engine_array(v)
 
     def __len__(self):
         return len(self.values)
@@ -144,6 +159,10 @@ class _ILoc:
         if isinstance(ck, (int, numpy.integer)):
             col = df._cols[names[int(ck)]]
             return Series(col[rk], names[int(ck)]) if not isinstance(rk, (int, numpy.integer)) else col[int(rk)]
+        if isinstance(ck, numpy.ndarray):
+            ck = symnp.unbox(ck) if isinstance(ck, SymArray) else ck
+            if ck.dtype == bool:
+                ck = [i for i, b in enumerate(ck) if b]
         sel = names[ck] if isinstance(ck, slice) else [names[int(i)] for i in ck]
         if isinstance(rk, (int, numpy.integer)):
             raise EngineUnsupported("iloc row scalar")
@@ -260,7 +279,7 @@ class DataFrame(metaclass=_FrameMeta):
         out = numpy.stack([numpy.asarray(c) for c in cols], axis=1) if len({c.dtype for c in cols}) == 1 else numpy.stack([numpy.asarray(c, dtype=object) for c in cols], axis=1)
         if dtype is not None:
             out = out.astype(dtype)
-        return out
+        return _engine_array(out)
 
     @property
     def values(self):
@@ -383,6 +402,7 @@ def concat(objs, axis=0, ignore_index=False, **kw):
 
 
 class _Module:
+    NA = None
     DataFrame = DataFrame
     Series = Series
     Index = Index
